@@ -78,7 +78,7 @@ def initTail (k : W → Pl → W) (e : Env) (w : W) (view : Nat) : W :=
   let nd := w.nd
   let elapsed : Option (Option Nat) :=
     if nd.lbIndex + 1 == nd.bi then some (nd.lbTime.map fun t => w.now - t) else none
-  changeTimer w (roundTimeout e.tpb (nd.isPrimary && !nd.recovering) nd.view elapsed)
+  changeTimer w (roundTimeout e.tpb (nd.isPrimary && !nd.recovering) view nd.view elapsed)
 
 theorem initConsensus_eq (k : W → Pl → W) (e : Env) (w : W) (view ts : Nat) :
     initConsensus k e w view ts = initTail k e (w.upd fun nd => reset e nd view ts) view := rfl
